@@ -218,7 +218,7 @@ pub fn run(o: &Opts) {
     }
     // import: the repository's own statement samples, N fresh processes each (no model: opaque)
     if !replay {
-        let base = "/repo/cli/tests/testdata/import";
+        let base = format!("{}/cli/tests/testdata/import", std::env::var("OKV_REPO").unwrap_or_else(|_| "/repo".to_string()));
         for f in ["csv_multi_currency.csv", "csv_template.csv", "index_amount.csv", "label_credit_debit.csv", "iso_camt.xml", "viseca.txt"] {
             let args = vec!["import".to_string(), "--config".to_string(), format!("{}/test_config.yml", base), format!("{}/{}", base, f)];
             let mut seen: HashSet<(i32, String, String)> = HashSet::new();
